@@ -15,6 +15,8 @@ class RScalar (R : Type) extends Add R, Sub R, Mul R, Div R, Neg R where
   log1p : R → R
   /-- `math.expm1` -/
   expm1 : R → R
+  /-- `math.expm1(x)` raises `OverflowError` (binary64: `x > log(DBL_MAX) ≈ 709.78`; never over ℝ) -/
+  expm1Ovf : R → Bool
   sqrt : R → R
   /-- `<` as a Boolean -/
   lt : R → R → Bool
@@ -43,6 +45,7 @@ instance : RScalar Float where
   log := Float.log
   log1p := floatLog1p
   expm1 := floatExpm1
+  expm1Ovf x := (Float.exp x).isInf && !x.isInf
   sqrt := Float.sqrt
   lt a b := decide (a < b)
   beq a b := a == b
